@@ -135,6 +135,19 @@ def build_sites(objs, rng):
                                     return True
                             return False
                         sites["NON_MATCHING_IF_VARIABLES"].append(Site("NON_MATCHING_IF_VARIABLES", o["file"], other_var, where))
+                if op in ("&", "==") and len(m["conds"]) == 1:
+                    # a NEW `||` chain whose second term tests another variable (the corpus has no `&` chains at all)
+                    def chain(root, o=o, m=m, var=var, op=op, val=val):
+                        p = os.path.join(root, os.path.relpath(o["file"], REPO))
+                        lines = open(p).read().split("\n")
+                        for i in range(m["line"] - 1, min(len(lines), m["line"] + 3)):
+                            new = re.sub(r"\b" + re.escape(var) + r"\s*" + re.escape(op) + r"\s*" + re.escape(val) + r"\b", f"{var} {op} {val} || other_variable_xyz {op} {val}", lines[i], count=1)
+                            if new != lines[i]:
+                                lines[i] = new
+                                open(p, "w").write("\n".join(lines))
+                                return True
+                        return False
+                    sites["NON_MATCHING_IF_VARIABLES"].append(Site("NON_MATCHING_IF_VARIABLES", o["file"], chain, where + (" new-and-chain" if op == "&" else " new-eq-chain")))
                 if op == "&":
                     sites["MISSING_ENUMERATOR"].append(Site("MISSING_ENUMERATOR", o["file"], line_edit(o["file"], m["line"], lambda s, val=val: re.sub(r"\b" + re.escape(val) + r"\b", "NO_SUCH_ENUMERATOR_XYZ", s, count=1)), where))
                     if len(m["conds"]) == 1:
@@ -271,12 +284,12 @@ def run(tier, seed):
             # spread over contexts: prefer distinct `where` kinds
             picked, seen_ctx = [], set()
             order = list(range(len(cands)))
-            if rule in ("INCORRECT_OPCODE_FOR_MESSAGE", "OPCODE_HAS_INCORRECT_NAME", "MESSAGE_NOT_IN_INDEX", "ENUM_HAS_BITWISE_AND", "FLAG_HAS_EQUALS"):
+            if rule in ("INCORRECT_OPCODE_FOR_MESSAGE", "OPCODE_HAS_INCORRECT_NAME", "MESSAGE_NOT_IN_INDEX", "ENUM_HAS_BITWISE_AND", "FLAG_HAS_EQUALS", "NON_MATCHING_IF_VARIABLES"):
                 # the index rules: one site of EVERY context (message kind, half of a MSG pair, own tags / paste, unused / neighbouring number)
                 by_ctx = collections.defaultdict(list)
                 for i in order:
                     by_ctx[re.sub(r"\b[A-Z][A-Za-z0-9_]+\b", "N", cands[i].where)].append(i)
-                prio = lambda cx: (0 if "else-if-body" in cx else 1 if "else-body" in cx else 2 if "inserted-in" in cx else 3, cx)
+                prio = lambda cx: (0 if ("else-if-body" in cx or "new-and-chain" in cx) else 1 if ("else-body" in cx or "new-eq-chain" in cx) else 2 if "inserted-in" in cx else 3, cx)
                 for ctx in sorted(by_ctx, key=prio)[:(24 if rule.endswith(("MESSAGE", "NAME", "INDEX")) else 14)]:
                     i = rng.choice(by_ctx[ctx])
                     picked.append(cands[i]); seen_ctx.add(ctx); order.remove(i)
